@@ -821,7 +821,7 @@ pub fn sparse_big<const N: usize>(w: &mut impl std::io::Write) -> usize {
     let mut n = 0;
     let mem: Vec<u8> = (0..N).map(|i| if i % 97 == 96 { b'\n' } else { 0x41 + (i % 53) as u8 }).collect();
     let ris = [0usize, 1, 8, 4095, 4096.min(N - 1), N / 2, N - 9, N - 1];
-    for &ri in &ris {
+    for &ri in ris.iter().filter(|r| **r <= N) {
         let mut lens: Vec<usize> = vec![0, 1, 2, 9, 4095, 4096, 4097, N - ri, (N - ri).saturating_sub(1), (N - ri) / 2, ri];
         lens.sort();
         lens.dedup();
